@@ -2,6 +2,8 @@
 // C17: binary results are valid definite-length blocks in the requested byte order; over-length data is refused;
 //      a block counts as one item only once it is complete.
 // Handlers are scripts carried by the plan; every item's bytes are predicted by an independent encoder.
+#include <sys/mman.h>
+
 #include "../world.h"
 
 namespace {
@@ -9,7 +11,7 @@ namespace {
 template <class T> T pickv(std::initializer_list<T> l, Rng &r) { return *(l.begin() + r.below(l.size())); }
 
 enum ItemKind {
-    IT_I32 = 0, IT_U32B, IT_I64, IT_U64B, IT_BOOL, IT_MNEM, IT_TEXT, IT_DOUBLE, IT_FLOAT, IT_BLOCK, IT_SBLOCK, IT_ARRAY, IT_HEADER, IT_SMALL, IT_PUSH, IT_STRAY, IT_BIG, IT_NKINDS
+    IT_I32 = 0, IT_U32B, IT_I64, IT_U64B, IT_BOOL, IT_MNEM, IT_TEXT, IT_DOUBLE, IT_FLOAT, IT_BLOCK, IT_SBLOCK, IT_ARRAY, IT_HEADER, IT_SMALL, IT_PUSH, IT_STRAY, IT_BIG, IT_GIANT, IT_NKINDS
 };
 enum ElemType { E_I8 = 0, E_U8, E_I16, E_U16, E_I32, E_U32, E_I64, E_U64, E_F32, E_F64, E_NTYPES };
 const size_t ELEM_SIZE[E_NTYPES] = {1, 1, 2, 2, 4, 4, 8, 8, 4, 8};
@@ -319,6 +321,54 @@ struct Run {
                             check_call("SCPI_ResultArbitraryBlockData(big)", ob2, data.substr(pos - n, n), pos == len, false);
                         }
                     }
+                    block_remaining = 0;
+                    block_open = false;
+                    break;
+                }
+                case IT_GIANT: {
+                    // the largest arrays the statement covers (byte count just below 10^9), in the host's byte order so that the
+                    // library hands the whole array to write() at once; the array is a lazily mapped zero page, the sink only counts
+                    int et = (int) clampl(it.arg(1), 0, E_NTYPES - 1);
+                    size_t sz = ELEM_SIZE[et];
+                    size_t cnt = (size_t) (999999999ULL / sz) - (size_t) clampl(it.arg(2), 0, 3);
+                    size_t bytes = cnt * sz;
+                    void *mem = mmap(nullptr, bytes, PROT_READ, MAP_PRIVATE | MAP_ANONYMOUS | MAP_NORESERVE, -1, 0);
+                    if (mem == MAP_FAILED) break;
+                    COUNT("probe_array_of_nearly_1e9_bytes");
+                    size_t errs0 = w.errs.size();
+                    w.count_only = true;
+                    w.counted = 0;
+                    scpi_array_format_t f = SCPI_GetNativeFormat();
+                    switch (et) {
+                        case E_I8: SCPI_ResultArrayInt8(c, (int8_t *) mem, cnt, f); break;
+                        case E_U8: SCPI_ResultArrayUInt8(c, (uint8_t *) mem, cnt, f); break;
+                        case E_I16: SCPI_ResultArrayInt16(c, (int16_t *) mem, cnt, f); break;
+                        case E_U16: SCPI_ResultArrayUInt16(c, (uint16_t *) mem, cnt, f); break;
+                        case E_I32: SCPI_ResultArrayInt32(c, (int32_t *) mem, cnt, f); break;
+                        case E_U32: SCPI_ResultArrayUInt32(c, (uint32_t *) mem, cnt, f); break;
+                        case E_I64: SCPI_ResultArrayInt64(c, (int64_t *) mem, cnt, f); break;
+                        case E_U64: SCPI_ResultArrayUInt64(c, (uint64_t *) mem, cnt, f); break;
+                        case E_F32: SCPI_ResultArrayFloat(c, (float *) mem, cnt, f); break;
+                        default: SCPI_ResultArrayDouble(c, (double *) mem, cnt, f); break;
+                    }
+                    w.count_only = false;
+                    munmap(mem, bytes);
+                    std::string head = w.out.substr(ob);
+                    std::string want_head = std::string(items_done > 0 ? "," : "") + enc_block_header(bytes);
+                    uint64_t sep = 0;
+                    if (payload.empty() && !head.empty() && head[0] == ';') {
+                        head.erase(0, 1);
+                        sep = 1;
+                    }
+                    bool raised = false;
+                    for (size_t e = errs0; e < w.errs.size(); e++) raised |= w.errs[e].code != 0;
+                    uint64_t want_total = sep + want_head.size() + bytes;
+                    if (c17 && !v.violated && (head.compare(0, want_head.size(), want_head) != 0 || w.counted != want_total || raised))
+                        v.fail("item-bytes", fmt("giant-array et=%d bytes=%zu", et, bytes),
+                               fmt("array of %zu elements (%zu bytes): wrote %llu bytes starting \"%s\", expected %llu bytes starting \"%s\", error raised: %d", cnt, bytes,
+                                   (unsigned long long) w.counted, c_escape(head.substr(0, 14)).c_str(), (unsigned long long) want_total, want_head.c_str(), raised));
+                    payload += want_head;
+                    items_done++;
                     block_remaining = 0;
                     block_open = false;
                     break;
@@ -671,6 +721,10 @@ void gen_item(Rng &r, Plan &p, bool c17, bool misuse) {
         p.ops.push_back(Op("it", {IT_ARRAY, (long) (r.chance(1, 2) ? E_I8 : E_U8), 0, r.range(32760, 40000), (long) r.below(1000000)}));
         return;
     }
+    if (c17 && r.chance(1, 4000)) {
+        p.ops.push_back(Op("it", {IT_GIANT, (long) r.below(E_NTYPES), r.chance(1, 2) ? 0 : r.range(1, 3)}));
+        return;
+    }
     if (c17 && r.chance(1, 1500)) {
         long len = r.chance(1, 2) ? 65536 + r.range(-2, 6) : (r.chance(1, 2) ? 131072 + r.range(-1, 4) : r.range(60000, 200000));
         p.ops.push_back(Op("it", {IT_BIG, len, r.chance(1, 3) ? 0 : r.range(500, 70000), (long) r.below(1000000)}));
@@ -840,7 +894,7 @@ const Property C17 = {
     gen_c17,
     exec_c17,
     {"arrays_normal", "arrays_swapped", "arrays_ascii", "blocks_streamed", "probe_zero_length_piece", "fault_overlength_block_data", "probe_block_left_incomplete",
-     "probe_empty_binary_array", "probe_three_digit_block_length", "probe_header_nine_digits", "block_headers_only", "probe_data_after_complete_block", "probe_block_of_64k_or_more"},
+     "probe_empty_binary_array", "probe_three_digit_block_length", "probe_header_nine_digits", "block_headers_only", "probe_data_after_complete_block", "probe_block_of_64k_or_more", "probe_array_of_nearly_1e9_bytes"},
     "handler scripts emitting arrays of all ten element types in NORMAL/SWAPPED/ASCII (0..300 elements, boundary values), blocks one-shot and streamed with seeded piece "
     "sizes incl. zero-length pieces, incomplete and over-length data at any point, header-only calls up to 10^9-1, items after complete/incomplete blocks; every API call's "
     "bytes are compared with an independent shift-based encoder, over-length data must be refused. distinct_nontrivial = distinct canonical trace hashes.",
